@@ -26,7 +26,7 @@ func init() {
 			"but may use, clunk, remove or walk from any fid, including one another thread is in the middle of allocating. Schedules are produced by a gate inside the FS: every FS call parks on entry, the controller waits until every other goroutine is parked (goroutine states, no clocks) and then releases one parked call chosen by the PRNG " +
 			"(so lock hand-over, lookup->lock and delete->lock windows are hit deliberately); a second family runs free with random yields. Oracles: (1) overlap monitor inside the FS (two calls in progress on one handle or its file), release monitor; (2) every call returned when all gates are released — otherwise the blocked sites are reported as a deadlock; " +
 			"(3) afterwards the verif hook must report no locked fid and, after Stop, nothing bound or leaked; (4) porcupine v1.3.0 checks the invoke/return history (logical clock) for linearizability against the sequential fid-table model (non-deterministic model where the statement leaves a choice); (5) Go race detector, reports with a frame in sfilesys.go. " +
-			"Two further families: reads of several open files issued through the server's request handler (p9p.SSession), sequentially and from concurrent goroutines, every reply kept untouched until all handlers of the round have returned and then compared with its own file's bytes; and Stop reached through ServeConn's shutdown while operations are still inside the file system (scripts and monitors of C11). " +
+			"One history in four (of those with >= 3 threads) starts with crossing walks: fids a and b both bound, one thread inside the FS on a, one walking a->b and one b->a. Two further families: reads of several open files issued through the server's request handler (p9p.SSession), sequentially and from concurrent goroutines, every reply kept untouched until all handlers of the round have returned and then compared with its own file's bytes; and Stop reached through ServeConn's shutdown while operations are still inside the file system (scripts and monitors of C11). " +
 			"non-trivial = >= 2 calls overlapped in time on a shared fid; distinct by hash of the (call, return) order",
 		Assumptions: []string{
 			"the FS gate scheduler interleaves at FS-call granularity; interleavings inside the session's own critical sections are left to the Go scheduler (plus the race detector)",
@@ -38,7 +38,7 @@ func init() {
 		Shards:    shards(8, 16),
 		Timeout:   timeouts(12*time.Minute, 90*time.Minute),
 		MinEvals:  100,
-		Required:  []string{"histories_gated", "histories_free", "porcupine:ok", "overlapping_pairs_on_shared_fid", "locked_fid_scans", "mutex_waits_observed", "held_reply_rounds", "served_shutdown_runs"},
+		Required:  []string{"histories_gated", "histories_free", "porcupine:ok", "overlapping_pairs_on_shared_fid", "locked_fid_scans", "mutex_waits_observed", "held_reply_rounds", "served_shutdown_runs", "crossing_walk_histories"},
 		Run:       runC14,
 	})
 }
@@ -622,6 +622,16 @@ func runC14History(w *mon.W, no int, gated bool) {
 		}
 		hot = append(hot, hotFid, hotFid)
 	}
+	// crossing walks: fids a and b are both bound; while a third thread is inside the file
+	// system on a, one thread walks a->b and another b->a (each names the other's source as
+	// its new fid: both must be refused with "duplicate fid" at once, whoever holds what)
+	cross := threads >= 3 && w.Rng.Intn(4) == 0
+	crossA, crossB := p9p.Fid(5), p9p.Fid(3) // a is in T2's pool, b in T1's
+	if cross {
+		prologue = append(prologue, fsx.Op{Kind: "walk", Fid: 0, NewFid: crossA, Names: []string{"d"}}, fsx.Op{Kind: "walk", Fid: 0, NewFid: crossB, Names: []string{"d", "g"}})
+		hot = append(hot, crossA, crossB)
+		w.Count("crossing_walk_histories", 1)
+	}
 	for _, o := range prologue {
 		rc := &c14rec{thread: -1, op: o, call: tick()}
 		r := fsx.Do(ctx, sess, o)
@@ -632,6 +642,18 @@ func runC14History(w *mon.W, no int, gated bool) {
 	var desc []string
 	for t := range plans {
 		plans[t] = genC14Thread(w.Rng, t, threads, hot)
+		if cross && t < 3 {
+			var first fsx.Op
+			switch t {
+			case 0:
+				first = []fsx.Op{{Kind: "stat", Fid: crossA}, {Kind: "walk", Fid: crossA, NewFid: crossA, Names: []string{"g"}}, {Kind: "open", Fid: crossA, Mode: p9p.OREAD}}[w.Rng.Intn(3)]
+			case 1:
+				first = fsx.Op{Kind: "walk", Fid: crossA, NewFid: crossB, Names: [][]string{nil, {"e"}, {"missing"}}[w.Rng.Intn(3)]}
+			default:
+				first = fsx.Op{Kind: "walk", Fid: crossB, NewFid: crossA, Names: [][]string{nil, {"h"}, {"missing"}}[w.Rng.Intn(3)]}
+			}
+			plans[t] = append([]fsx.Op{first}, plans[t]...)
+		}
 		desc = append(desc, fmt.Sprintf("T%d%v", t, plans[t]))
 	}
 	caseDesc := fmt.Sprintf("history #%d gated=%v prologue=%v %s", no, gated, prologue, strings.Join(desc, " "))
